@@ -359,8 +359,11 @@ def run(ctx):
     _ly.check_stores(ctx, _spec, 'asefile::layer::parse_chunk', 'LAYER', _bl, rule='W6')
     # W6: the laws are stated over (layer opacity, cel opacity); both rasterisers must hand their product to the blend function
     render.opacity_and_mode(ctx, rule_o='W6', rule_m=None)
+    render.drawing_conditions(ctx, 'W6')       # a cel is blended whatever its opacity product (seed C17-q skipped products that truncate to 0)
     import C06 as _c06l
-    _c06l.link_resolution(ctx, 'W6')       # .. of the cel that is drawn: a linked cel takes its target's opacity (seed C17-o)
+    _c06l.link_resolution(ctx, 'W6')
+    _c06l.validate_keeps_pixels(ctx, 'W6')     # the source alpha the laws speak of is the stored one (seed C17-r)
+    _c06l.layer_opacity_as_stored(ctx, 'W6')       # .. of the cel that is drawn: a linked cel takes its target's opacity (seed C17-o)
     # .. and that opacity is the byte the cel chunk stores, every value of it (seed C17-p read 0 as "not set" = 255)
     import spec as _SP
     import layout as _lay
